@@ -102,7 +102,7 @@ def run(rep):
                 items.append({"line": line, "text": text, "cfg": cfg, "lang": "en", "expected": c["expected"], "variant": var, "feat": feat, "class_fn": cls,
                               "nontrivial": bool(feat["dst"]) and feat["dst"] != feat["src"]})
     forms.replay(rep, items, "c12.gen")
-    random_trace(rep, quick, 3000 if quick else 30000)
+    random_trace(rep, quick, 3000 if quick else 200000)
 
 
 _F = {"mm": 10, "cm": 100, "dm": 1000, "m": 10 ** 4, "dam": 10 ** 5, "hm": 10 ** 6, "km": 10 ** 7, "in": 254, "ft": 3048, "yard": 9144, "furlong": 2011680,
